@@ -376,7 +376,7 @@ Section ENGINE.
     match fn with
     | LRate | LCount => bucket_upd l idx (fun a _ => (vadd a v1, v1))
     | LBytesRate | LBytesOver => bucket_upd l idx (fun a _ => (vadd a (vofZ (Z.of_nat (String.length (e_msg e)))), v1))
-    | LAbsent => if (0 <? idx) && (idx <? Z.of_nat (List.length l)) then bucket_upd l idx (fun _ _ => (v0, v0)) else Ok l
+    | LAbsent => if (0 <=? idx) && (idx <? Z.of_nat (List.length l)) then bucket_upd l idx (fun _ _ => (v0, v0)) else Ok l   (* `idx >= 0` after the fix *)
     | LOther => Ok l                                        (* the switch matches nothing: no array access *)
     end.
 
